@@ -114,6 +114,14 @@ def run_shards(check: str, cases: list, timeout_per_case: float = 20.0, jobs: in
     for i, r in enumerate(results):
         if r is None:
             results[i] = {"status": "inconclusive", "why": "worker produced no result", "witnesses": []}
+    reached = set()
+    for _p, fout, _shard in procs:
+        try:
+            with open(fout + ".cov") as f:
+                reached.update(json.load(f))
+        except Exception:
+            pass
+    infra["functions_reached"] = sorted(reached)
     shutil.rmtree(wd, ignore_errors=True)
     try:
         os.rmdir(WORK)
@@ -124,6 +132,36 @@ def run_shards(check: str, cases: list, timeout_per_case: float = 20.0, jobs: in
 
 # ----------------------------------------------------------------------------------------------------------
 # Known findings
+
+def repo_functions():
+    """every function / method defined in the repository package: 'json_to_models/x.py::Class.method'"""
+    import ast
+    out = []
+    root = os.path.join(REPO, "json_to_models")
+    for dp, _dn, fns in os.walk(root):
+        for fn in sorted(fns):
+            if not fn.endswith(".py"):
+                continue
+            path = os.path.join(dp, fn)
+            rel = "json_to_models/" + os.path.relpath(path, root)
+            try:
+                tree = ast.parse(open(path).read())
+            except Exception:
+                continue
+
+            def rec(node, prefix):
+                for ch in ast.iter_child_nodes(node):
+                    if isinstance(ch, (ast.FunctionDef, ast.AsyncFunctionDef)):
+                        q = prefix + ch.name
+                        out.append(rel + "::" + q)
+                        rec(ch, q + ".<locals>.")
+                    elif isinstance(ch, ast.ClassDef):
+                        rec(ch, prefix + ch.name + ".")
+                    else:
+                        rec(ch, prefix)
+            rec(tree, "")
+    return out
+
 
 def load_known():
     path = os.path.join(VERIF, "known_findings.json")
@@ -230,6 +268,14 @@ class Verdict:
             "repo": state,
             "exhaustive": bool(exhaustive),
         }
+        reached = (self.infra or {}).pop("functions_reached", None) if isinstance(self.infra, dict) else None
+        if reached is not None:
+            total = repo_functions()
+            hit = [f for f in total if f in set(reached)]
+            cov["repo_functions_total"] = len(total)
+            cov["repo_functions_reached"] = len(hit)
+            cov["repo_functions_not_reached"] = [f for f in total if f not in set(reached)]
+            cov["infra"] = self.infra
         cov.update(self.extra)
         ev = {
             "property_id": self.prop,
